@@ -26,9 +26,24 @@ use common::*;
 
 fn main() {
   let args: Vec<String> = std::env::args().collect();
-  if args.len() < 5 && !(args.len() >= 2 && (args[1] == "eval" || args[1] == "fmtp" || args[1] == "doc" || args[1] == "fsm" || args[1] == "bc" || args[1] == "sess" || args[1] == "steps")) {
+  if args.len() < 5 && !(args.len() >= 2 && (args[1] == "eval" || args[1] == "emit" || args[1] == "loadone" || args[1] == "fmtp" || args[1] == "doc" || args[1] == "fsm" || args[1] == "bc" || args[1] == "sess" || args[1] == "steps")) {
     eprintln!("usage: mvh <prop> <seed> <quick|thorough|replay> <outdir> [replay-file]");
     std::process::exit(2);
+  }
+  if args.len() >= 2 && args[1] == "emit" {
+    let mut text = String::new();
+    use std::io::Read;
+    std::io::stdin().read_to_string(&mut text).unwrap();
+    for l in text.lines() { if let Some(b) = c07::emit(&l.replace("\\n", "\n")) { println!("{}", common::hexb(&b)); } else { println!("-"); } }
+    return;
+  }
+  if args.len() >= 2 && args[1] == "loadone" {
+    std::panic::set_hook(Box::new(|_| {}));
+    let mut text = String::new();
+    use std::io::Read;
+    std::io::stdin().read_to_string(&mut text).unwrap();
+    println!("{}", c07::load_summary(&c07::unhex(text.trim())));
+    return;
   }
   if args.len() >= 2 && args[1] == "fmtp" {
     std::panic::set_hook(Box::new(|_| {}));
